@@ -55,6 +55,10 @@ pub struct CsvFile {
     #[serde(default)]
     pub extra_cols: Vec<String>,
     pub rows: Vec<Vec<String>>,
+    /// Non-zero: the columns are written in a permuted order and the header names in another
+    /// case / with padding (the layout is a function of this seed).
+    #[serde(default)]
+    pub layout_seed: u64,
 }
 
 impl CsvFile {
@@ -78,15 +82,36 @@ impl CsvFile {
     }
 
     pub fn text(&self) -> String {
-        let mut s = HEADER.join(",");
-        for c in &self.extra_cols {
-            s.push(',');
-            s.push_str(c);
+        let mut names: Vec<String> = HEADER.iter().map(|h| h.to_string()).collect();
+        names.extend(self.extra_cols.iter().cloned());
+        let mut order: Vec<usize> = (0..names.len()).collect();
+        if self.layout_seed != 0 {
+            let mut r = Rng::new(self.layout_seed);
+            r.shuffle(&mut order);
+            for n in names.iter_mut() {
+                *n = match r.below(4) {
+                    0 => n.clone(),
+                    1 => n.to_uppercase(),
+                    2 => format!(" {} ", n),
+                    _ => {
+                        let mut c = n.chars();
+                        match c.next() {
+                            Some(f) => f.to_uppercase().collect::<String>() + c.as_str(),
+                            None => String::new(),
+                        }
+                    }
+                };
+            }
         }
+        let mut s = order.iter().map(|i| names[*i].clone()).collect::<Vec<_>>().join(",");
         s.push('\n');
         for r in &self.rows {
             // RFC 4180 quoting for cells that need it (memos with commas, quotes, line breaks)
-            let cells: Vec<String> = r.iter().map(|c| if c.contains(',') || c.contains('"') || c.contains('\n') { format!("\"{}\"", c.replace('"', "\"\"")) } else { c.clone() }).collect();
+            let cells: Vec<String> = order
+                .iter()
+                .map(|i| r.get(*i).cloned().unwrap_or_default())
+                .map(|c| if c.contains(',') || c.contains('"') || c.contains('\n') { format!("\"{}\"", c.replace('"', "\"\"")) } else { c })
+                .collect();
             s.push_str(&cells.join(","));
             s.push('\n');
         }
@@ -404,7 +429,7 @@ pub fn generate(seed: u64, k_seeds: usize) -> Sc {
         }
     }
     let n_files = (r.below(3) + 1) as usize;
-    let mut files: Vec<CsvFile> = (0..n_files).map(|i| CsvFile { name: format!("tx{}.csv", i + 1), extra_cols: vec![], rows: vec![] }).collect();
+    let mut files: Vec<CsvFile> = (0..n_files).map(|i| CsvFile { name: format!("tx{}.csv", i + 1), extra_cols: vec![], rows: vec![], layout_seed: 0 }).collect();
     let per = all_rows.len().div_ceil(n_files).max(1);
     for (i, (_, row)) in all_rows.into_iter().enumerate() {
         files[(i / per).min(n_files - 1)].rows.push(row);
@@ -436,6 +461,12 @@ pub fn generate(seed: u64, k_seeds: usize) -> Sc {
                 };
                 row.push(cell);
             }
+        }
+    }
+    // A quarter of the files permute their columns and spell the header names differently.
+    for f in files.iter_mut() {
+        if r.chance(1, 4) {
+            f.layout_seed = r.next_u64() | 1;
         }
     }
     let sum_day = d(start_year, 1, 1) + Duration::days(r.range(100, span_days.max(101)));
@@ -993,6 +1024,9 @@ impl Engine for C09 {
         let mut nontrivial = false;
         let mut perms: BTreeSet<String> = BTreeSet::new();
         let boc = sc.fx.as_ref().map(|f| std::sync::Arc::new(crate::fx::BocData::new(&f.cal, &f.format, &[])));
+        if sc.files.iter().any(|f| f.layout_seed != 0) {
+            st.bump("probe.columns_permuted_and_header_names_respelled");
+        }
         if sc.files.iter().any(|f| f.extra_cols.iter().any(|c| HEADER.contains(&c.to_lowercase().as_str()))) {
             st.bump("probe.header_repeats_a_recognised_column");
             nontrivial = true;
@@ -1175,6 +1209,13 @@ impl Engine for C09 {
             c.push(s);
         }
         for (fi, f) in sc.files.iter().enumerate() {
+            if f.layout_seed != 0 {
+                let mut s = sc.clone();
+                s.files[fi].layout_seed = 0;
+                c.push(s);
+            }
+        }
+        for (fi, f) in sc.files.iter().enumerate() {
             if !f.extra_cols.is_empty() {
                 let mut s = sc.clone();
                 s.files[fi].extra_cols.clear();
@@ -1294,6 +1335,7 @@ impl Engine for C09 {
             "probe.securities_differing_only_in_case",
             "probe.output_dir_used_by_an_earlier_longer_run",
             "probe.header_repeats_a_recognised_column",
+            "probe.columns_permuted_and_header_names_respelled",
             "probe.security_name_with_file_name_special_characters",
             "probe.e2e_inputs_run_by_the_real_binary",
             "probe.e2e_real_process_output_equals_simulated_process_output",
